@@ -54,7 +54,17 @@ CLAIM = dict(
           "pipeline run; (b) the Lean `modelPipeline` itself is run on generated problems with the oracle inputs recorded "
           "from the hand-chained implementation with the sequential placer and compared stage by stage - placements "
           "(incl. dict order), allocations, unminimised tables (incl. chip order), FINAL tables (exact per-chip equality of "
-          "the entries), device links, and the failing stage when the implementation raises a documented error."),
+          "the entries), device links, and the failing stage when the implementation raises a documented error; (c) "
+          "SEQUENCES of 2-4 complete pipeline runs in ONE process (different applications and key assignments on the same "
+          "or on different machines) whose later key assignments are RELATED to the earlier runs: one key field for the "
+          "whole sequence, hierarchical key/masks of different generality (single keys next to blocks of 2-8 keys, blocks "
+          "left partly unused), nets keyed with exactly the (key, mask) pairs that ordered covering PRODUCED in an earlier "
+          "run (entries of an earlier minimised table that are not original entries), and beside such a block single-key "
+          "nets of another route group whose common cover dips into the block; ordered covering really runs (targets None "
+          "/ small, methods default / oc); every run is judged by the same Lean delivery oracle on ALL keys its nets match; "
+          "a failing run is re-run alone in a fresh interpreter - if it fails alone it is an ordinary finding, if it "
+          "passes alone the finding is history-dependent (state the library kept between calls) and the replay is the "
+          "sequence, confirmed in a fresh interpreter and reduced to the runs needed."),
     design="3/C01",
     note=("PROVED: everything about the model pipeline stated above, for all inputs in the domain. Domain restrictions "
           "of the capstone, all named hypotheses (Rig.C01Pipe.Domain / PlacerDomain) and all kept by the generators "
@@ -105,7 +115,14 @@ RULE = ("pipelines on machines 1x1..8x8 (quick) / ..24x24 (thorough), torus / me
         "some tree was repaired around dead links; distinct = distinct canonical JSON of the problem. Model-pipeline "
         "stream: the same problem generator with placer = sequential, api = hand-chained, every radius / method chain / "
         "target, router draws through the recording FakeRandom; 250 (quick) / 3000 (thorough) problems, every fourth on a "
-        "machine with 15-40% dead links")
+        "machine with 15-40% dead links. Sequence stream: 220 (quick) / 2000 (thorough) sequences of 2-4 pipeline runs on "
+        "machines 2x1..5x1 / 4x4, placer in {sequential, hilbert, rcm, breadth_first, rand, sa-python}, api in "
+        "{hand-chained, build_machine, place_and_route_wrapper with 1-5 free router entries}, methods {default, oc}, target "
+        "{None, small}; one 3-6 bit key field per sequence, 2-14 nets per run in 1-4 route groups (half of them forking "
+        "at one source chip), keys = non-intersecting blocks of 1-8 keys + 0-2 partly used blocks + 1-3 key/masks taken "
+        "from the merges of earlier runs (60%: with a straddling pair of single keys beside them); with probability 0.5 "
+        "a run re-uses the previous application and machine under a new key assignment; all keys of every net are "
+        "injected")
 
 PLACERS = ["sa-python", "sa-c", "hilbert", "rcm", "breadth_first", "sequential", "rand"]
 RADII = [0, 1, 2, 20]
@@ -675,6 +692,12 @@ def tables_c04(tables):
 def x_fillings(rng, key, mask, n):
     free = ~mask & M32
     ks = [key & mask]
+    if n == "all" and bin(free).count("1") <= 7:
+        # every key the key/mask matches
+        bits = [1 << i for i in range(32) if free >> i & 1]
+        return [(key & mask) | sum(b for j, b in enumerate(bits) if i >> j & 1) for i in range(1 << len(bits))]
+    if n == "all":
+        n = 8
     if free:
         ks.append((key & mask) | free)
         for _ in range(n):
@@ -727,7 +750,7 @@ def lean_requests(prob, out, rng):
     queries = []
     qmeta = []
     for i, (n, p) in enumerate(zip(nets, prob["nets"])):
-        for k in x_fillings(rng, p[3], p[4], 3):
+        for k in x_fillings(rng, p[3], p[4], prob.get("fill", 3)):
             queries.append({"src": exp[i][0], "key": k, "cores": exp[i][1], "exits": exp[i][2]})
             qmeta.append((i, k))
     reqs.append(dict(mj, suite="c01", op="deliver", tables=[[c[0], c[1], t] for c, t in t1.items()],
@@ -1242,6 +1265,373 @@ def eval_pipe_problems(ctx, probs):
 
 
 # --------------------------------------------------------------------------------------------
+# SEQUENCES of complete pipeline runs in one process with RELATED key assignments
+# (state kept by the library between calls - e.g. a mutable default argument of the minimiser - shows
+# only when a later application's key/masks meet what an earlier run left behind)
+# --------------------------------------------------------------------------------------------
+SEQ_SIZES = [(2, 1), (2, 1), (1, 2), (2, 2), (2, 2), (3, 2), (3, 3), (4, 4), (5, 1)]
+SEQ_PLACERS = ["sequential", "hilbert", "rcm", "breadth_first", "rand", "sa-python"]
+
+
+def gen_universe(rng):
+    """a key field of 3..6 adjacent bit positions; every other bit is masked with one common value"""
+    b = rng.choice([3, 4, 4, 5, 5, 6])
+    lo = rng.randrange(0, 33 - b)
+    field = ((1 << b) - 1) << lo
+    return dict(b=b, lo=lo, common=rng.getrandbits(32) & ~field & M32)
+
+
+def cube_km(u, val, care):
+    """(value, care bits) inside the field -> 32-bit (key, mask)"""
+    field = ((1 << u["b"]) - 1) << u["lo"]
+    mask = (~field & M32) | (care << u["lo"])
+    return ((u["common"] | (val << u["lo"])) & mask, mask)
+
+
+def km_intersect(a, b):
+    return (a[0] & b[1]) == (b[0] & a[1])
+
+
+def in_universe(u, km):
+    """the key/mask differs from the common value only inside the field (and masks every bit outside)"""
+    field = ((1 << u["b"]) - 1) << u["lo"]
+    return (km[1] | field) == M32 and (km[0] & ~field & M32) == (u["common"] & km[1])
+
+
+def gen_cubes(rng, u, n, forced=(), avoid=()):
+    """n pairwise non-intersecting key/masks of DIFFERENT generality inside the field (hierarchical key space: some
+    nets own one key, some a block of 2, 4, 8 keys), the `forced` ones first; blocks of the field stay unused; the
+    others also stay clear of the key/masks in `avoid`"""
+    out = []
+    for km in forced:
+        if in_universe(u, km) and not any(km_intersect(km, o) for o in out):
+            out.append(tuple(km))
+    nf = len(out)
+    b = u["b"]
+    tries = 0
+    while len(out) < n and tries < 40 * n:
+        tries += 1
+        nx = rng.choice([0, 0, 0, 0, 1, 1, 2, 3]) if b > 3 else rng.choice([0, 0, 0, 1])
+        xs = rng.sample(range(b), min(nx, b - 1))
+        care = ((1 << b) - 1) & ~sum(1 << x for x in xs)
+        km = cube_km(u, rng.getrandbits(b) & care, care)
+        if not any(km_intersect(km, o) for o in out) and not any(km_intersect(km, o) for o in avoid):
+            out.append(km)
+    return out
+
+
+def field_bits(u, word):
+    return [i for i in range(u["lo"], u["lo"] + u["b"]) if word >> i & 1]
+
+
+def straddling_pair(rng, u, km, holes):
+    """two single keys just outside the block `km` (each differs from a key h of the block in one of the block's
+    masked field bits) whose common cover {h, h^c1, h^c2, h^c1^c2} dips into the block at h - taken from `holes` (keys
+    of the block no entry of the earlier run occupied) when there are any.  Orthogonal to the block, legal."""
+    care = field_bits(u, km[1])
+    if len(care) < 2:
+        return None
+    c1, c2 = rng.sample(care, 2)
+    if holes and rng.random() < 0.85:
+        h = rng.choice(holes)
+    else:
+        free = ~km[1] & M32
+        h = km[0] | (rng.getrandbits(32) & free)
+    e1, e2 = (h ^ (1 << c1), M32), (h ^ (1 << c2), M32)
+    cover = (h & ~((1 << c1) | (1 << c2)) & M32, M32 & ~((1 << c1) | (1 << c2)))
+    return e1, e2, cover
+
+
+def merges_of(out):
+    """the (key, mask) pairs ordered covering produced in a run: entries of a minimised table that are not entries of
+    the table before minimisation; -> [((key, mask), holes)] where holes are the keys of the merged block that no
+    original entry of that chip's table matched (at most 64 are listed)"""
+    if out.get("status") != "ok":
+        return []
+    t0, t1 = tables_c04(out["tables0"]), tables_c04(out["tables1"])
+    ms, seen = [], set()
+    for c, t in t1.items():
+        orig = [(e[1], e[2]) for e in t0.get(c, [])]
+        for e in t:
+            km = (e[1], e[2])
+            if km in orig or km in seen:
+                continue
+            seen.add(km)
+            holes = []
+            if bin(~km[1] & M32).count("1") <= 6:
+                for k in x_fillings(None, km[0], km[1], "all"):
+                    if not any(k & m == kk for kk, m in orig):
+                        holes.append(k)
+            ms.append((km, holes))
+    return ms
+
+
+def seq_cfg(rng):
+    cfg = gen_cfg(rng)
+    cfg["placer"] = rng.choice(SEQ_PLACERS)
+    cfg["api"] = rng.choice(["manual", "manual", "manual", "manual-sysinfo", "wrapper"])
+    cfg["methods"] = rng.choice(["default", "default", "oc"])          # ordered covering must really run
+    cfg["target"] = rng.choice([None, None, None, "small"])
+    cfg["tables_api"] = "rt2t"
+    return cfg
+
+
+def gen_seq_problem(rng, prev, universe, forced):
+    """one application of a sequence: a fresh problem (or the previous application on the previous machine with a
+    new key assignment), few route groups (nets sharing source and sinks, so that entries share routes and merge),
+    keys = hierarchical blocks of the universe, the first nets keyed with `forced` (merges an earlier run produced)"""
+    import copy
+    if prev is not None and rng.random() < 0.5:
+        prob = copy.deepcopy(prev)
+        prob["cfg"] = seq_cfg(rng)
+        prob["seed"] = rng.randrange(1 << 30)
+        groups = [list(g) for g in prob.get("seq_groups", [])]
+        if rng.random() < 0.5:
+            rng.shuffle(groups)
+    else:
+        prob = gen_problem(rng, SEQ_SIZES, seq_cfg(rng), faulty=False)
+        groups = []
+        for n in prob["nets"]:
+            if n[1] and [n[0], n[1]] not in groups:
+                groups.append([n[0], list(n[1])])
+        if not groups:
+            groups = [[prob["nets"][0][0], list(prob["nets"][0][1])]]
+        rng.shuffle(groups)
+        groups = groups[:rng.choice([2, 2, 2, 3, 4])]
+    if len(groups) >= 2 and rng.random() < 0.5 and groups[0][1] != groups[1][1]:
+        # two route groups that fork at the same source chip (one table holds entries of both)
+        groups[1] = [groups[0][0], list(groups[1][1])]
+    if prob["cfg"]["api"] == "wrapper":
+        prob["rtr"] = rng.choice([1, 2, 3, 5, 1023])       # the wrapper takes its targets from the SystemInfo
+        prob["rtr_exc"] = []
+    nn = min(1 << universe["b"], rng.choice([0, 0, 3, 4, 5, 6, 8, 10, 14]))
+    prob.pop("seq_tags", None)
+    # nets keyed with merges of an earlier run; next to such a block, with probability 0.6, two single-key nets of
+    # another route group whose common cover dips into the block
+    fixed, role, avoid = [], [], []
+    for km, holes in forced:
+        km = tuple(km)
+        if not in_universe(universe, km) or any(km_intersect(km, o) for o in fixed):
+            continue
+        fixed.append(km)
+        role.append(0)
+        sp = straddling_pair(rng, universe, km, holes) if rng.random() < 0.6 else None
+        if sp and not any(km_intersect(e, o) for e in sp[:2] for o in fixed) and in_universe(universe, sp[0]) \
+                and in_universe(universe, sp[1]):
+            fixed += [sp[0], sp[1]]
+            role += [1, 1]
+            avoid.append(sp[2])
+            prob.setdefault("seq_tags", []).append(
+                "seq_pair_beside_earlier_merge" + ("_with_unused_keys" if holes else "") +
+                ("_4plus" if bin(~km[1] & M32).count("1") >= 2 else ""))
+    # partially used blocks: 2..(size-1) of the single keys of a 4- or 8-key block, all in one route group, the
+    # other keys of the block unused (an application that does not use every value of a key field) - ordered
+    # covering merges them into the block's key/mask although they do not fill it
+    for _ in range(rng.choice([0, 1, 1, 2])):
+        b = universe["b"]
+        xs = rng.sample(range(b), min(rng.choice([2, 2, 3]), b - 1))
+        care = ((1 << b) - 1) & ~sum(1 << x for x in xs)
+        blk = cube_km(universe, rng.getrandbits(b) & care, care)
+        if any(km_intersect(blk, o) for o in fixed + avoid):
+            continue
+        ks = x_fillings(None, blk[0], blk[1], "all")
+        use = rng.sample(ks, rng.randrange(2, len(ks)))
+        gi = rng.randrange(len(groups))
+        for kk in ks:
+            if kk in use:
+                fixed.append((kk, M32))
+                role.append(gi)
+            else:
+                avoid.append((kk, M32))
+    if prob.get("seq_tags"):
+        # a pair beside an earlier merge: ordered covering must run to the end, and (mostly) the pair's route group
+        # forks from the block's at the same source chip
+        if prob["cfg"]["api"] != "wrapper":
+            prob["cfg"]["target"] = None
+        if len(groups) >= 2 and rng.random() < 0.7 and groups[0][1] != groups[1][1]:
+            groups[1] = [groups[0][0], list(groups[1][1])]
+    cubes = gen_cubes(rng, universe, max(nn, len(fixed), 2), fixed, avoid)
+    role += [None] * (len(cubes) - len(role))
+    nets = []
+    for i, km in enumerate(cubes):
+        if role[i] is not None:
+            g = groups[role[i] % len(groups)]       # the block's net in one route group, the pair in another
+        else:
+            g = groups[i % len(groups)] if rng.random() < 0.7 else rng.choice(groups)
+        nets.append([g[0], list(g[1]), 1, km[0], km[1]])
+    if rng.random() < 0.5:
+        rng.shuffle(nets)
+    prob["nets"] = nets
+    prob["seq_groups"] = groups
+    prob["fill"] = "all"
+    prob["seq_member"] = True
+    return prob
+
+
+def fresh_outcomes(probs):
+    """run the pipelines of `probs` one after the other in a FRESH interpreter; -> per problem a summary
+    (status, final tables, expected deliveries) from which the delivery oracle can be evaluated"""
+    import json
+    import os
+    import subprocess
+    import sys
+    from .common import VERIF, REPO
+    code = ("import sys, json; sys.path[:0] = [%r, %r]; from harness import c01; "
+            "json.dump(c01.fresh_main(json.load(sys.stdin)), sys.stdout)" % (VERIF, REPO))
+    env = dict(os.environ, RIG_REPO=REPO)
+    r = subprocess.run([sys.executable, "-c", code], input=json.dumps(probs).encode(), stdout=subprocess.PIPE,
+                       stderr=subprocess.PIPE, env=env, timeout=600)
+    if r.returncode != 0:
+        raise RuntimeError("fresh interpreter failed: " + r.stderr.decode()[-500:])
+    return json.loads(r.stdout.decode())
+
+
+def fresh_main(probs):
+    import warnings
+    warnings.simplefilter("ignore")
+    res = []
+    for prob in probs:
+        out = run_pipeline(prob)
+        d = {"status": out["status"]}
+        if out["status"] == "ok":
+            d["tables1"] = [[c[0], c[1], t] for c, t in tables_c04(out["tables1"]).items()]
+            d["expected"] = expected(prob, out)
+        res.append(d)
+    return res
+
+
+def fresh_failures(ctx, probs):
+    """-> set of failing clauses (finding keys) of the LAST problem when `probs` run alone in a fresh interpreter"""
+    summ = fresh_outcomes(probs)[-1]
+    prob = probs[-1]
+    if summ["status"] != "ok":
+        return set()
+    rng = _random.Random(prob["seed"] ^ 0x77)
+    queries = []
+    for i, p in enumerate(prob["nets"]):
+        for k in x_fillings(rng, p[3], p[4], prob.get("fill", 3)):
+            e = summ["expected"][i]
+            queries.append({"src": e[0], "key": k, "cores": e[1], "exits": e[2]})
+    r = ctx.lean([dict(mach_json(prob), suite="c01", op="deliver", tables=summ["tables1"],
+                       dev=[[d[1], d[2], d[3]] for d in prob["devices"]], queries=queries)])[0]
+    bad = set()
+    for q in r:
+        if not q["ok"]:
+            bad.update(q["why"])
+    return bad
+
+
+def register_seq_result(ctx, seq, k, res):
+    """run k of sequence `seq` was judged: violations are confirmed in a fresh interpreter - alone first (then it is
+    an ordinary single-run finding), else after the earlier runs of the sequence (history-dependent finding: the
+    replay is the sequence)"""
+    prob, st, findings, tags, nontriv, out = res
+    viol = {}
+    for kind, key, what in findings:
+        if kind == "violation":
+            viol.setdefault(key, what)
+    ctx.tag("seq_run_%d" % k, "seq_status_" + st, *["seq_" + t for t in tags if t.startswith("tables-")])
+    if not viol:
+        register_result(ctx, prob, st, findings, tags, nontriv, out)
+        return
+    ctx.tag("seq_run_with_violation")
+    nfresh = getattr(ctx, "_c01_fresh_n", 0)
+    ctx._c01_fresh_n = nfresh + 1
+    if nfresh >= 6:
+        # enough findings were confirmed in fresh interpreters in this run; later ones are recorded as they are
+        ctx.traces += 1
+        for kind, key, what in findings:
+            if kind == "violation":
+                ctx.violation(key, what + " [run %d of a sequence of pipeline runs in one process; not re-run in a "
+                              "fresh interpreter]" % (k + 1), {"seq": list(seq[:k + 1])})
+            else:
+                ctx.mismatch(key, what, prob)
+        ctx.case({"seq": list(seq[:k + 1])}, True)
+        return
+    try:
+        alone = fresh_failures(ctx, [prob])
+    except Exception as e:      # noqa
+        alone = None
+        ctx.tag("seq_fresh_check_failed")
+    if alone is None or set(viol) & alone:
+        ctx.tag("seq_violation_reproduced_alone")
+        register_result(ctx, prob, st, findings, tags, nontriv, out)
+        return
+    # passes alone: history dependent
+    for kind, key, what in findings:
+        if kind != "violation":
+            ctx.mismatch(key, what, prob)
+    ctx.traces += 1
+    hist = list(seq[:k + 1])
+    done = getattr(ctx, "_c01_seq_done", None)
+    if done is None:
+        done = ctx._c01_seq_done = set()
+    try:
+        whole = fresh_failures(ctx, hist)
+        if set(viol) & whole and not set(viol) <= done:
+            # drop earlier runs that are not needed
+            t_end = time.time() + 25.0
+            j = 0
+            while j < len(hist) - 1 and len(hist) > 2 and time.time() < t_end:
+                cand = hist[:j] + hist[j + 1:]
+                if set(viol) & fresh_failures(ctx, cand):
+                    hist = cand
+                else:
+                    j += 1
+    except Exception:      # noqa
+        whole = None
+    case = {"seq": hist}
+    for key, what in viol.items():
+        if whole is not None and key in whole:
+            note = (" [HISTORY-DEPENDENT: run %d of a sequence of pipeline runs in one process; the same run alone in a "
+                    "fresh interpreter passes; replay = the sequence, %d runs]" % (k + 1, len(hist)))
+            ctx.tag("seq_violation_history_dependent")
+        else:
+            note = (" [history-dependent: failed after earlier pipeline runs in this process, passes alone; the sequence "
+                    "alone in a fresh interpreter did not reproduce it (the state came from other runs of this process)]")
+            ctx.tag("seq_violation_not_reproduced")
+        done.add(key)
+        ctx.violation(key, what + note, case)
+    ctx.case(case, True)
+
+
+def eval_sequences(ctx, nseq):
+    """nseq sequences of 2-4 pipeline runs, evaluated in waves (run 1 of every sequence, then run 2, ...: every later
+    run comes after its predecessors in the same process); run k+1 of a sequence is generated from what run k
+    produced"""
+    seqs = [dict(u=gen_universe(ctx.rng), n=ctx.rng.choice([2, 2, 3, 3, 4]), probs=[], merges=[]) for _ in range(nseq)]
+    for k in range(4):
+        live = [q for q in seqs if q["n"] > k]
+        if not live:
+            break
+        for q in live:
+            forced = []
+            if q["merges"]:
+                ms = list(q["merges"])
+                ctx.rng.shuffle(ms)
+                if ctx.rng.random() < 0.7:
+                    # prefer blocks of 4 and more keys that the earlier run left partly unused
+                    ms.sort(key=lambda m: not (m[1] and bin(~m[0][1] & M32).count("1") >= 2))
+                forced = ms[:ctx.rng.choice([1, 1, 2, 3])]
+            q["probs"].append(gen_seq_problem(ctx.rng, q["probs"][-1] if q["probs"] else None, q["u"], forced))
+            q["forced"] = forced
+        for i in range(0, len(live), 40):
+            part = live[i:i + 40]
+            results = eval_problems(ctx, [q["probs"][k] for q in part], register=False)
+            for q, res in zip(part, results):
+                out = res[5]
+                for m in merges_of(out):
+                    if m[0] not in [x[0] for x in q["merges"]]:
+                        q["merges"].append(m)
+                if q["forced"]:
+                    ctx.tag("seq_keys_from_earlier_merges")
+                ctx.tag(*q["probs"][k].get("seq_tags", []))
+                if k > 0 and merges_of(out):
+                    ctx.tag("seq_later_run_merged")
+                register_seq_result(ctx, q["probs"], k, res)
+
+
+# --------------------------------------------------------------------------------------------
 # entry points
 # --------------------------------------------------------------------------------------------
 SIZES_Q = [(1, 1), (1, 2), (2, 1), (1, 4), (5, 1), (2, 2), (2, 3), (2, 6), (3, 3), (3, 4), (4, 4), (5, 5), (6, 4), (7, 2),
@@ -1271,7 +1661,10 @@ def run(ctx):
         "rig_c_sa (C annealing kernel) is an opaque binary: its placements are judged by the oracle only",
         "the global `random` generator is seeded per case (the router draws from it)",
         "model-pipeline stream: set iteration orders (destination set, broken-link set) and the router's random draws "
-        "are recorded from the implementation and given to the model as oracle inputs (the theorem holds for all of them)"]
+        "are recorded from the implementation and given to the model as oracle inputs (the theorem holds for all of them)",
+        "sequence stream: a run that fails after earlier runs of its sequence but passes alone in a fresh interpreter is "
+        "reported as a violation of the property by the LATER run (the property quantifies over every application mapped, "
+        "not only the first one in a process); the replay is the sequence"]
     ctx.extra["trusted_base"] = ["the SpiNNaker multicast router rules written in Rig.C01.visit (first match, default "
                                  "route = opposite link, drop of unmatched local packets, core bits 6..23)"]
     n = ctx.scale(1000, 12000)
@@ -1295,11 +1688,29 @@ def run(ctx):
         pprobs.append(gen_pipe_problem(ctx.rng, sz, faulty=(i % 4 == 3)))
     for i in range(0, len(pprobs), 50):
         eval_pipe_problems(ctx, pprobs[i:i + 50])
+    # sequences of pipeline runs in one process with related key assignments
+    nseq = ctx.scale(220, 2000)
+    if ctx.extended:
+        nseq *= 4
+    eval_sequences(ctx, nseq)
 
 
 def replay(ctx, payload):
     ctx.extra["rule"] = RULE
-    if payload["case"].get("pipe"):
+    if "seq" in payload["case"]:
+        # a history-dependent finding: all runs of the sequence in this (fresh) process, each judged
+        seq = payload["case"]["seq"]
+        for k, prob in enumerate(seq):
+            for prob_, st, findings, tags, nontriv, out in eval_problems(ctx, [prob], register=False):
+                ctx.traces += 1
+                for kind, key, what in findings:
+                    if kind == "violation":
+                        ctx.violation(key, what + " [run %d of %d of the replayed sequence]" % (k + 1, len(seq)),
+                                      payload["case"])
+                    else:
+                        ctx.mismatch(key, what, prob)
+        ctx.case(payload["case"], True)
+    elif payload["case"].get("pipe"):
         eval_pipe_problems(ctx, [payload["case"]])
     else:
         eval_problems(ctx, [payload["case"]])
